@@ -9,11 +9,16 @@ import coqlit as L
 ID = "C11"
 COQ_PROPERTY_FILE = "Properties/C11.v"
 COQ_DEPS = ["Common/ListX.v", "Common/ObsHash.v", "Generated/Tables.v", "Model/PropLayer.v", "Proofs/PropLayerProofs.v",
-            "Proofs/PropLayerEmpty.v"]
+            "Proofs/PropLayerEmpty.v", "Proofs/PropLayerBridge.v"]
 COQ_IMPORTS = "From Mesa Require Import Model.PropLayer."
 COQ_CASE_TYPE = "case"
 COQ_RUN = "run_case"
-TABLE_CONSTRUCTS = ["select_order_discrete", "select_order_legacy", "select_empty_source"]
+TABLE_CONSTRUCTS = ["select_order_discrete", "select_order_legacy", "select_empty_source",
+                    # code-level T1 (harness/tables/proplayer_code.py): translated function bodies
+                    "pl_ufunc_arity_d", "pl_ufunc_arity_l", "pl_set_cells_d", "pl_set_cells_l", "pl_modify_cells_d",
+                    "pl_modify_cells_l", "pl_modify_cell_l", "pl_set_cell_l", "pl_descr_get", "pl_descr_set",
+                    "pl_add_layer_d", "pl_remove_layer_d", "pl_add_layer_l", "pl_remove_layer_l", "pl_ext_step_d",
+                    "pl_ext_step_l", "pl_nbhd_mask_d", "pl_nbhd_mask_l"]
 _PL, _SP, _DS = "mesa/discrete_space/property_layer.py", "mesa/space.py", "mesa/discrete_space/"
 # the source functions Model/PropLayer.v transcribes (harness/fingerprint.py: a change escalates the search)
 SOURCE_FUNCS = [
@@ -21,7 +26,7 @@ SOURCE_FUNCS = [
     (_PL, "HasPropertyLayers.create_property_layer"), (_PL, "HasPropertyLayers.add_property_layer"),
     (_PL, "HasPropertyLayers.remove_property_layer"), (_PL, "HasPropertyLayers.set_property"),
     (_PL, "HasPropertyLayers.modify_properties"), (_PL, "HasPropertyLayers.select_cells"),
-    (_PL, "PropertyDescriptor"), (_PL, "ufunc_requires_additional_input"),
+    (_PL, "PropertyDescriptor"), (_PL, "ufunc_requires_additional_input"), (_PL, "HasPropertyLayers.get_neighborhood_mask"),
     (_DS + "cell.py", "Cell.add_agent"), (_DS + "cell.py", "Cell.remove_agent"), (_DS + "cell.py", "Cell.is_empty"),
     (_DS + "cell_agent.py", "HasCell"), (_DS + "cell_agent.py", "BasicMovement"), (_DS + "grid.py", "Grid.__init__"),
     (_SP, "PropertyLayer"), (_SP, "_PropertyGrid"), (_SP, "ufunc_requires_additional_input"),
@@ -59,6 +64,10 @@ ASSUMPTIONS = [
     "cell capacities are None, 1 or 2 (the emptiness theorem assumes capacity >= 0); grids are not tori; "
     "move_relative is issued on Moore / von Neumann grids only (hex connection keys belong to C07)",
     "order of select_cells' list form is row-major (np.where order), compared in order",
+    "get_neighborhood_mask is only called where the neighbourhood is non-empty (finding C11-4: an empty neighbourhood - "
+    "1x1 grid or isolated cell without include_center - raises IndexError in both implementations; patch proposed in "
+    "fixes/C11-4, not applied to /repo); the neighbourhood itself is C07's / C09's subject and is a parameter of "
+    "the translated function",
 ]
 E_VALUE, E_KEY, E_INDEX, E_ATTR, E_TYPE, E_EXC = 1, 2, 3, 4, 5, 6
 DT_BOOL, DT_INT, DT_FLOAT = 0, 1, 2
@@ -319,6 +328,9 @@ class _G:
 
     def op_select(self):
         r = self.rng
+        if r.random() < 0.12:
+            self.ops.append(["nmask", list(r.choice(self.coords)), r.random() < 0.5, r.choice([1, 1, 2]), r.random() < 0.5])
+            return
         names = list(self.grid)
         user = [n for n in names if n != 0]
         conds, exts, masks = [], [], []
@@ -803,7 +815,7 @@ def _exc_kind(e):
 SITE = {"add": "add_property_layer", "create": "add_property_layer", "remove": "remove_property_layer",
         "lwrite": "set_cell", "modcell": "modify_cell", "modcells": "modify_cells", "set": "set_cells",
         "setarr": "set_cells", "select": "select_cells", "place": "place_agent", "cellwrite": "cell-write",
-        "move": "move_agent", "mrel": "move_relative", "rm": "remove_agent", "new": "PropertyLayer"}
+        "move": "move_agent", "mrel": "move_relative", "rm": "remove_agent", "new": "PropertyLayer", "nmask": "get_neighborhood_mask"}
 
 
 def run_impl(case):
@@ -1021,6 +1033,30 @@ def run_impl(case):
                     result = ("ok", [len(gl)] + [x for c in gl for x in c])
                 else:
                     result = ("ok", [int(gm_arr[c]) for c in R.coords])
+            elif kind == "nmask":
+                # get_neighborhood_mask: True exactly on the neighbourhood the grid itself reports (C07 / C09 own the
+                # neighbourhood; the translated body is covered by C11_nbhd_mask_of_source); the model skips the op
+                _, c, ic, r, moore = op
+                c = tuple(c)
+                if c not in R.coords or (case["cls"].startswith("Hex") and not discrete):
+                    result = ("skip",)
+                else:
+                    if discrete:
+                        nb = {tuple(x.coordinate) for x in R.grid._cells[c].get_neighborhood(radius=r, include_center=ic)}
+                    else:
+                        nb = {tuple(int(v) for v in x) for x in R.grid.get_neighborhood(c, moore, ic, r)}
+                    if not nb:
+                        # reported finding (reports/g11.md, fixes/C11-4): an EMPTY neighbourhood makes both
+                        # get_neighborhood_mask implementations raise IndexError; not executed, see ASSUMPTIONS
+                        obs.append([-2] + R.view())
+                        continue
+                    m = (R.grid.get_neighborhood_mask(c, include_center=ic, radius=r) if discrete
+                         else R.grid.get_neighborhood_mask(c, moore, ic, r))
+                    got = {k for k in R.coords if bool(m[k])}
+                    if tuple(m.shape) != R.dims or got != nb:
+                        R.fail("get_neighborhood_mask/wrong-mask", i,
+                               f"get_neighborhood_mask({c}, include_center={ic}, radius={r}) is True on {sorted(got)}, the neighbourhood is {sorted(nb)}")
+                    result = ("skip",)
             elif kind in ("place", "move", "mrel", "rm"):
                 a = op[1]
 
@@ -1201,6 +1237,8 @@ def _op(case, op):
         exts = L.lst([L.pair(L.z(n), L.z(m)) for n, m in op[2]])
         masks = L.lst([L.lst([L.b(x) for x in m]) for m in op[3]])
         return f"Select {conds} {exts} {masks} {L.b(op[4])} {L.b(op[5])}"
+    if k == "nmask":
+        return "Skip"
     if k == "mrel":
         if case["impl"] != "discrete" or case["cls"] == "HexGrid":
             return "Skip"
